@@ -30,7 +30,7 @@ func TestC01(t *testing.T) {
 	if !r.Quick() {
 		maxLen = 5
 	}
-	r.Rule = fmt.Sprintf("all operation sequences of length 1..%d over {write(a,empty|5B|blocksize+1B), write(b,5B), write(bin key,5B), write(empty key), write(65535/65536/70000-byte key), delete(a|b), Flush, Sync, Close+reopen} for block sizes %v (+ thorough: 3 MiB value, 1 MiB block with a 70000-entry burst) on the real v2.FileWriter/FileReader over the in-memory vos; after every reopen and at the end LoadIndex must equal a reference map; non-trivial = a sequence containing at least one accepted write followed later by a reopen, delete or overwrite (distinct by block size + sequence)", maxLen, blockSizes)
+	r.Rule = fmt.Sprintf("all operation sequences of length 1..%d over {write(a,empty|5B|blocksize+1B), write(b,5B), write(bin key,5B), write(empty key), write(65535/65536/70000-byte key), delete(a|b), Flush, Sync, Close+reopen} for block sizes %v (+ every sequence of length <= 3 over {write(a,5B), write(a,1 MiB+1), delete(a), Flush, Reopen, write(b,5B)} at block size 16384; thorough: 3 MiB value, 1 MiB block with a 70000-entry burst) on the real v2.FileWriter/FileReader over the in-memory vos; after every reopen and at the end LoadIndex must equal a reference map; non-trivial = a sequence containing at least one accepted write followed later by a reopen, delete or overwrite (distinct by block size + sequence)", maxLen, blockSizes)
 	r.Assumptions = []string{"keys/values outside the alphabet are not enumerated", "the in-memory vos models os faithfully for create/write/seek/sync/close (cross-checked by hydraide's own v2 tests in bin/selftest)"}
 
 	r.Parallel(16, "TestC01", func() {
@@ -63,6 +63,15 @@ func TestC01(t *testing.T) {
 					return false
 				}
 				c01run(r, bs, syms, seq)
+				return true
+			})
+		}
+		if r.Mine(3) {
+			// a value above 1 MiB (far above the block size): a writer may treat such entries specially
+			mib := []byte(strings.Repeat("y", 1<<20+1))
+			syms := []c01sym{{"W(a,5)", 'w', "a", []byte("12345")}, {"W(a,1MiB+1)", 'w', "a", mib}, {"D(a)", 'd', "a", nil}, {"Flush", 'f', "", nil}, {"Reopen", 'r', "", nil}, {"W(b,5)", 'w', "b", []byte("bbbbb")}}
+			forEachSeq(len(syms), 3, func(idx int, seq []int) bool {
+				c01run(r, 16384, syms, seq)
 				return true
 			})
 		}
